@@ -332,6 +332,11 @@ impl Property for C06 {
     fn fuzz_sequences(&self) -> Vec<(&'static str, usize)> {
         vec![("/hist/ops", 40)]
     }
+    fn fuzz_admissible(&self, case: &Self::Case) -> bool {
+        // blocks with more than a thousand outputs make every later query of the history
+        // expensive: at most two per case (the generator draws one in ~180 operations)
+        case.hist.ops.iter().filter(|o| matches!(o, crate::hist::Op::BigFund { .. })).count() <= 2
+    }
     fn run(&self, case: &Case06) -> Outcome {
         let mut out = Outcome::default();
         let mut w = World::new(&case.hist.cfg);
